@@ -680,7 +680,7 @@ func c08FirstUse(r *Result, seed int64, di int) {
 
 func init() {
 	register("C08", func(r *Result, rng *rand.Rand, tier string) {
-		n := map[string]int{"quick": 36, "thorough": 600, "search": 240}[tier]
+		n := map[string]int{"quick": 57, "thorough": 950, "search": 380}[tier]
 		off := rng.Intn(len(c08Zoo))
 		for i := 0; i < n && !expired(); i++ {
 			c08DeclOne(r, rng.Int63(), off+i)
